@@ -62,7 +62,7 @@ SignEvent(e) ==
      /\ LE(SubSeq(e.out.sig, 33, 64)) = f.scert.r
      /\ e.out.verify_ok                                                     \* Verify accepts it for its own key and message
      /\ e.out.signer_sig = e.out.sig /\ e.out.signer_err = ""               \* crypto.Signer with crypto.Hash(0)
-     /\ e.out.signer_hashed_err # "" /\ e.out.signer_hashed_sig = <<>>      \* refuses pre-hashed input
+     /\ e.out.signer_hashed_err # ""                                        \* refuses pre-hashed input
      /\ e.out.signer_accepted_hashes = <<>>                                 \* ... for every hash identifier other than 0
 
 \* GenerateKey(reader): the first 32 bytes the reader delivers (however it chunks them) are the seed; as crypto/ed25519
